@@ -103,16 +103,9 @@ func unitsFor(prog *Program, prop string) []checkUnit {
 			continue // assumed contract (interface method, or a function outside the subset): used at call sites, nothing is verified
 		}
 		serves := false
-		for _, p := range ct.Props {
+		for _, p := range ct.allProps() {
 			if p == prop {
 				serves = true
-			}
-		}
-		for _, cl := range append(append(append([]Clause(nil), ct.Requires...), ct.Ensures...), ct.Invariants...) {
-			for _, p := range cl.Props {
-				if p == prop {
-					serves = true
-				}
 			}
 		}
 		// "serves <props>": the unit also runs for these properties, which are charged only the
